@@ -179,6 +179,79 @@ func init() {
 		conds("reopenIfReplacedConds", notify, "NotifyFollowReader.reopenIfReplaced")
 		conds("pollReadConds", poller, "PollingFollowReader.Read")
 
+		// Every write to the poller's offset `readBytes`, in the WHOLE file (any function or method, also
+		// ones the model does not know about), as "<func>:<statement>" in source order.  The polling LTS
+		// changes `readBytes` in exactly three places (Drain: = offset; Read: += n after every read, = 0 when a
+		// shorter file is found at the path); a helper that resets it elsewhere breaks `poll_offset_writes`.
+		if pf := c.File(poller); pf != nil {
+			var writes, opens []string
+			for _, d := range pf.Decls {
+				fd, ok := d.(*ast.FuncDecl)
+				if !ok || fd.Body == nil {
+					continue
+				}
+				name := fd.Name.Name
+				if fd.Recv != nil && len(fd.Recv.List) == 1 {
+					t := fd.Recv.List[0].Type
+					if st, ok := t.(*ast.StarExpr); ok {
+						t = st.X
+					}
+					name = exprStr2(c, t) + "." + name
+				}
+				isOffset := func(e ast.Expr) bool { return exprStr2(c, e) == "s.readBytes" }
+				ast.Inspect(fd.Body, func(n ast.Node) bool {
+					switch v := n.(type) {
+					case *ast.AssignStmt:
+						for _, l := range v.Lhs {
+							if isOffset(l) {
+								writes = append(writes, name+":"+exprStr2(c, v))
+							}
+						}
+						for _, l := range v.Lhs {
+							if exprStr2(c, l) == "s.f" {
+								opens = append(opens, name+":"+exprStr2(c, v))
+							}
+						}
+					case *ast.IncDecStmt:
+						if isOffset(v.X) {
+							writes = append(writes, name+":"+exprStr2(c, v))
+						}
+					case *ast.UnaryExpr:
+						if v.Op == token.AND && isOffset(v.X) {
+							writes = append(writes, name+":&s.readBytes")
+						}
+					}
+					return true
+				})
+			}
+			fmt.Fprintf(&sb, "/-- every write to `s.readBytes` in poller.go (all functions), \"func:statement\", in source order -/\ndef pollOffsetWrites : List String := %s\n\n", leanStrList(writes))
+			fmt.Fprintf(&sb, "/-- every assignment to `s.f` in poller.go (all functions), \"func:statement\", in source order -/\ndef pollHandleWrites : List String := %s\n\n", leanStrList(opens))
+		} else {
+			sb.WriteString(untranslatable("pollOffsetWrites"))
+			sb.WriteString(untranslatable("pollHandleWrites"))
+		}
+		// the statements of the re-open block of Read: the body of `if st != nil && st.Size() != s.readBytes`
+		if fd := c.Func(poller, "PollingFollowReader.Read"); fd != nil && fd.Body != nil {
+			var block []string
+			found := false
+			ast.Inspect(fd.Body, func(n ast.Node) bool {
+				if is, ok := n.(*ast.IfStmt); ok && !found && exprStr2(c, is.Cond) == "st!=nil&&st.Size()!=s.readBytes" {
+					found = true
+					for _, st := range is.Body.List {
+						block = append(block, exprStr2(c, st))
+					}
+				}
+				return true
+			})
+			if found {
+				fmt.Fprintf(&sb, "/-- the statements executed when `Stat` reports a size different from `readBytes` (poller.go Read) -/\ndef pollReopenBlock : List String := %s\n\n", leanStrList(block))
+			} else {
+				sb.WriteString(untranslatable("pollReopenBlock"))
+			}
+		} else {
+			sb.WriteString(untranslatable("pollReopenBlock"))
+		}
+
 		// poller defaults
 		if v, ok := IntLit(fieldOf(poller, "NewPolling", "ReadAttempts")); ok && v >= 0 {
 			fmt.Fprintf(&sb, "/-- default `ReadAttempts` -/\ndef readAttempts : Nat := %d\n\n", v)
